@@ -59,6 +59,11 @@ CLAIMED = {
                 text='Proof (loop invariants for the two monotone pointers, symbolic node vectors) that every segment emitted by _volume_average_weights has positive length, valid cell indices, its centre in the stated output cell and in the stated (or nearest) input cell; '
                      'that interp_volume_average adds w_z w_y w_x values[in] to new[out] per triple of segments and divides by the cell volume (hence linear with non-negative weights); that interpolate(method=volume) always runs this kernel (log10 before / 10** after in log mode) '
                      'and that Model.interpolate_to_grid uses log mode exactly for the linear mappings.'),
+    'C18': dict(ref='5 (C18)', tech=TECH + '; the real parser executed on an abstract ConfigParser with an opaque unknown key',
+                note=NOTE + ' Equality of computed results between CLI and API is only covered by the bounded concrete run; configparser / pathlib behaviour is modelled.',
+                text='Proof obligations over the real configuration parser: the recognised key set of every section is observed from the parser itself; every recognised key reaches its destination; any other key is rejected with TypeError in every section; '
+                     'terminal values win over file values (path, survey, model, output, save, load, cache, nproc, layered, function); documented keys are recognised and every emitted name (after the hand-over in cli.run) is accepted by the API; '
+                     'the [data] section reaches Survey.select with all four keys whenever it is non-empty.'),
     'C20': dict(ref='5 (C20)', tech=TECH + '; element-wise lifting of boolean masks over the generic frequency',
                 note=NOTE + ' Interpolating-spline and shape-preserving PCHIP behaviour of SciPy and the reference transform of empymod are assumed contracts; precondition fmin <= fmax.',
                 text='Proof over all paths of the frequency bookkeeping properties and of Fourier.interpolate for the three coarse-frequency options: the three groups (below / within / above the band) are disjoint and exhaustive, '
